@@ -18,7 +18,9 @@ RULE = ('schemas over {int, Optional[int], float, bool, str, SequenceID, List[in
         '(every sortable key kind, directly and after concatenation) and pairs of add_fields with one field name and two '
         'declared types on two tables of one class; operations applied directly to freshly indexed tables; int columns given '
         'as every integer dtype and as python ints at the 64-bit limits; EVERY program is run twice (intermediate tables '
-        'observed / never touched) and both runs must agree with the specification; non-trivial = at least 2 columns of different representation and an operand with '
+        'observed / never touched) and both runs must agree with the specification; the rows of from_entry_tuples are handed over '
+        'in 12 shapes (list, tuple, deque, __iter__-only object, dict view, rows as lists; one-shot: generator, iter(), zip of columns, '
+        'map, chain, __next__-only reader) x 0/1/2/4 rows and np.concatenate gets a list or a tuple of tables; non-trivial = at least 2 columns of different representation and an operand with '
         '>= 1 row and a program with >= 1 table-producing operation')
 EXHAUSTIVE = {'quick': False, 'thorough': False}
 TIE = ('translator+correspondence: translate/gen_c19.py regenerates the decision rules of bnpdataclass.py and '
@@ -81,6 +83,99 @@ DATATYPES = {
     'PairsEntry': [('read_id', 'str'), ('chrom1', 'id'), ('pos1', 'int'), ('chrom2', 'id'), ('pos2', 'int'),
                    ('strand1', 'strand'), ('strand2', 'strand')],
 }
+
+
+# How a SEQUENCE ARGUMENT is handed over (from_entry_tuples is declared Iterable[tuple]; np.concatenate takes any
+# sequence of tables).  (name, one-shot?, Coq constructor).  One-shot = an iterator: a second traversal yields nothing.
+ROW_SHAPES = [('list', False, 'ItList'), ('tuple', False, 'ItTuple'), ('deque', False, 'ItDeque'),
+              ('reiter', False, 'ItReiter'),          # object with only __iter__ (no __len__, no __getitem__), fresh iterator per call
+              ('dictvalues', False, 'ItDictValues'),  # dict.values() view: sized, re-iterable, not indexable
+              ('rowlists', False, 'ItRowLists'),      # a list whose rows are lists instead of tuples
+              ('gen', True, 'ItGen'), ('iter', True, 'ItIter'), ('zipcols', True, 'ItZip'), ('map', True, 'ItMap'),
+              ('chain', True, 'ItChain'),
+              ('once', True, 'ItOnce')]               # object with __iter__/__next__ only (a reader-like iterator)
+SHAPE_NAMES = [s[0] for s in ROW_SHAPES]
+ONE_SHOT = {s[0]: s[1] for s in ROW_SHAPES}
+SHAPE_COQ = {s[0]: s[2] for s in ROW_SHAPES}
+CAT_OPS = ('catr', 'catl', 'cats', 'cat3')
+
+
+def _row_shape(op):
+    return op[1] if len(op) > 1 else 'list'
+
+
+def _hand_over(shape, tuples):
+    """the rows (a list of tuples) as an iterable of the given shape -> (object to pass, function telling afterwards
+    whether a RE-ITERABLE object still holds exactly the rows it was given)"""
+    import collections
+    import itertools
+    rows = [tuple(r) for r in tuples]
+
+    class Reiter:
+        def __init__(self, r):
+            self._r = list(r)
+
+        def __iter__(self):
+            return iter(list(self._r))
+
+    class Once:
+        def __init__(self, r):
+            self._it = iter(list(r))
+
+        def __iter__(self):
+            return self
+
+        def __next__(self):
+            return next(self._it)
+
+    if shape == 'list':
+        obj = list(rows)
+    elif shape == 'tuple':
+        obj = tuple(rows)
+    elif shape == 'deque':
+        obj = collections.deque(rows)
+    elif shape == 'reiter':
+        obj = Reiter(rows)
+    elif shape == 'dictvalues':
+        obj = {i: r for i, r in enumerate(rows)}.values()
+    elif shape == 'rowlists':
+        obj = [list(r) for r in rows]
+    elif shape == 'gen':
+        obj = (r for r in rows)
+    elif shape == 'iter':
+        obj = iter(list(rows))
+    elif shape == 'zipcols':
+        obj = zip(*[list(c) for c in zip(*rows)]) if rows else zip()
+    elif shape == 'map':
+        obj = map(tuple, [list(r) for r in rows])
+    elif shape == 'chain':
+        obj = itertools.chain(rows[:1], rows[1:])
+    elif shape == 'once':
+        obj = Once(rows)
+    else:
+        raise ValueError(shape)
+
+    def intact():
+        if ONE_SHOT[shape]:
+            return True
+        try:
+            return [tuple(r) for r in obj] == rows and len(rows) == len([1 for _ in obj])
+        except Exception:
+            return False
+    return obj, intact
+
+
+def _assign_shapes(cases, seed):
+    """every from_entry_tuples / concatenate operation of the generated programs gets a hand-over shape, drawn from a
+    stream of its own (the programs themselves stay what they were)"""
+    rng = random.Random(seed * 7919 + 1906)
+    for c in cases:
+        for op in c['prog']:
+            if op[0] == 'rows' and len(op) == 1 and rng.random() < 0.65:
+                op.append(rng.choice(SHAPE_NAMES))
+            elif op[0] in CAT_OPS and len(op) == 1 and rng.random() < 0.35:
+                op.append('tuple')
+    return cases
 
 
 # ------------------------------------------------------------------------------------------------ generator
@@ -429,7 +524,41 @@ def generate(tier, seed):
                     elif o == 'index':
                         prog.append(['index', rng.randint(-n, n - 1) if n else 0])
             cases.append(dict(cls='dyn', schema=sch, c0=c0, c1=c1, prog=prog))
-    return cases
+    # (10) the SHAPE in which a sequence argument is handed over.  from_entry_tuples takes an Iterable[tuple]: every
+    #      shape (re-iterable: list, tuple, deque, __iter__-only object, dict view, rows as lists; one-shot: generator,
+    #      iter(), zip of the columns, map, chain, __next__-only reader) x 0, 1, 2, 4 rows x every column kind, followed
+    #      by an operation on the table built that way (what is lost there is lost in everything after); then two
+    #      from_entry_tuples calls in a row with different shapes; np.concatenate given a tuple of tables.
+    rng10 = random.Random(seed * 15485863 + 10)
+    kinds10 = BASE_KINDS + [['nested', [['a', 'int'], ['s', 'str']]], ['nested', [['i', 'id'], ['d', 'dna']]]]
+    follow = [['catr'], ['sort', 1], ['slice', None, None, -1], ['cats', 'tuple'], ['dict'], ['iter'], ['index', 0], ['catl', 'tuple']]
+    j = 0
+    for rep in range(1 if tier == 'quick' else 6):
+        for shape in SHAPE_NAMES:
+            for n0 in (0, 1, 2, 4):
+                k = kinds10[j % len(kinds10)]
+                k2 = BASE_KINDS[(j * 5 + 3) % len(BASE_KINDS)]
+                sch = [['f0', k], ['f1', 'int'], ['f2', k2]]
+                c0 = [_gen_col(rng10, kk, n0) for _, kk in sch]
+                c1 = [_gen_col(rng10, kk, (j % 3)) for _, kk in sch]
+                prog = [['rows', shape], list(follow[j % len(follow)])]
+                if j % 4 == 1:
+                    prog.append(['rows', SHAPE_NAMES[(j * 7 + 1) % len(SHAPE_NAMES)]])
+                cases.append(dict(cls='dyn', schema=sch, c0=c0, c1=c1, prog=prog))
+                j += 1
+    #      ... and every supported class of bionumpy.datatypes through the one-shot and the unusual re-iterable shapes
+    for rep in range(1 if tier == 'quick' else 4):
+        for name in sorted(DATATYPES):
+            sch = [[f, k] for f, k in DATATYPES[name]]
+            n0 = rng10.choice([1, 1, 2, 3])
+            shape = SHAPE_NAMES[j % len(SHAPE_NAMES)]
+            prog = [['rows', shape], list(follow[j % len(follow)])]
+            if prog[1][0] == 'sort':
+                prog[1] = ['sort', 0]
+            cases.append(_mk(name, sch, rng10, n0, rng10.choice([0, 1, 2]), 0))
+            cases[-1]['prog'] = prog
+            j += 1
+    return _assign_shapes(cases, seed)
 
 
 # ------------------------------------------------------------------------------------------------ implementation
@@ -595,14 +724,9 @@ def _apply_op(op, cur, t1, cur_sch, cache):
         return cur[np.array(op[1], dtype=bool)]
     if o == 'slice':
         return cur[slice(op[1], op[2], op[3])]
-    if o == 'catr':
-        return np.concatenate([cur, t1])
-    if o == 'catl':
-        return np.concatenate([t1, cur])
-    if o == 'cats':
-        return np.concatenate([cur, cur])
-    if o == 'cat3':
-        return np.concatenate([cur, t1, cur])
+    if o in CAT_OPS:
+        parts = dict(catr=[cur, t1], catl=[t1, cur], cats=[cur, cur], cat3=[cur, t1, cur])[o]
+        return np.concatenate(tuple(parts) if _row_shape(op) == 'tuple' else parts)
     if o == 'sort':
         return cur.sort_by(cur_sch[op[1]][0])
     if o == 'replace':
@@ -617,7 +741,11 @@ def _apply_op(op, cur, t1, cur_sch, cache):
     if o == 'rows':
         names = [f.name for f in dataclasses.fields(cur)]
         tuples = [tuple(getattr(e, n) for n in names) for e in cur.tolist()]
-        return type(cur).from_entry_tuples(tuples)
+        handed, intact = _hand_over(_row_shape(op), tuples)
+        new = type(cur).from_entry_tuples(handed)
+        if not intact():
+            raise RuntimeError('from_entry_tuples changed the rows object it was given')
+        return new
     if o == 'dict':
         return type(cur).from_dict(cur.todict())
     if o == 'pandas':
@@ -665,7 +793,10 @@ def observe(case):
                 out['steps'].append(dict(rowsonly=[_entry_cells(cur[op[1]])]))
                 continue
             if o == 'iter':
-                out['steps'].append(dict(rowsonly=[_entry_cells(e) for e in cur]))
+                first = [_entry_cells(e) for e in cur]
+                if [_entry_cells(e) for e in iter(cur)] != first:
+                    raise RuntimeError('a second iteration over the table gave other entries')
+                out['steps'].append(dict(rowsonly=first))
                 continue
             new = _apply_op(op, cur, t1, cur_sch, cache)
             ob = _observe_table(new)
@@ -821,7 +952,9 @@ def _op(op, sch, base=None):
         return '(OAdd %s %s %s)' % (_names(op[1]), KCOQ[op[2]], clist([_mb_in(op[2], v) for v in op[3]], 'mb'))
     if o == 'addt1':
         return '(OAddT1 %s %s %s %s)' % (_schema(base), _names(op[1]), KCOQ[op[2]], clist([_mb_in(op[2], v) for v in op[3]], 'mb'))
-    return dict(rows='ORows', dict='ODict', pandas='OPandas', iter='OIter')[o] if o != 'index' else '(OIndex %s)' % cz(op[1])
+    if o == 'rows':
+        return '(ORows %s)' % SHAPE_COQ[_row_shape(op)]
+    return dict(dict='ODict', pandas='OPandas', iter='OIter')[o] if o != 'index' else '(OIndex %s)' % cz(op[1])
 
 
 def to_coq(case, o):
@@ -868,7 +1001,7 @@ def describe(case, o):
 
 
 def distribution(cases, obs):
-    d = dict(classes={}, kinds={}, ops={}, rows0={}, errors={}, prog_len={})
+    d = dict(classes={}, kinds={}, ops={}, rows0={}, errors={}, prog_len={}, handed_over_as={})
     for c, o in zip(cases, obs):
         d['classes'][c['cls']] = d['classes'].get(c['cls'], 0) + 1
         for _, k in c['schema']:
@@ -876,6 +1009,9 @@ def distribution(cases, obs):
             d['kinds'][kk] = d['kinds'].get(kk, 0) + 1
         for p in c['prog']:
             d['ops'][p[0]] = d['ops'].get(p[0], 0) + 1
+            if p[0] == 'rows' or (p[0] in CAT_OPS and len(p) > 1):
+                key = '%s:%s' % ('from_entry_tuples' if p[0] == 'rows' else 'concatenate', _row_shape(p))
+                d['handed_over_as'][key] = d['handed_over_as'].get(key, 0) + 1
         n0 = str(_ncol(c['schema'][0][1], c['c0'][0]))
         d['rows0'][n0] = d['rows0'].get(n0, 0) + 1
         d['prog_len'][str(len(c['prog']))] = d['prog_len'].get(str(len(c['prog'])), 0) + 1
